@@ -115,7 +115,7 @@ def run(r):
     proof_ok = runner.proof_stage(r)
     h1, _ = core.build_harness()
     rnd = random.Random(r.seed)
-    n = int(os.environ.get("VERIF_CASES", 30 if quick else 600))
+    n = int(os.environ.get("VERIF_CASES", 80 if quick else 600))
     base = tempfile.mkdtemp(prefix="verif_c13_")
     tagc = collections.Counter()
     try:
